@@ -158,7 +158,7 @@ func TestC16EventualTermination(t *testing.T) {
 	rapid.Check(t, func(t *rapid.T) {
 		h := newHist(t, HistCfg{MaxSteps: 26, Chains: []string{"btc", "lbtc"}, Restarts: true, Crashes: true, Faults: true, PayOutcomes: true, Timeouts: true, Eager: true,
 			LNDStyle: rapid.Bool().Draw(t, "lnd"),
-			Weights:  map[string]int{"start": 0, "progress": 14, "deliver": 1, "settle": 1, "restart": 2, "mine": 2, "watcher": 1, "paid": 1, "timeout": 1, "payplan": 2, "resolve": 1, "fault": 3, "armcrash": 2}})
+			Weights:  map[string]int{"start": 0, "progress": 14, "deliver": 1, "settle": 1, "restart": 2, "mine": 2, "watcher": 1, "paid": 1, "timeout": 1, "payplan": 2, "resolve": 1, "fault": 3, "armcrash": 2, "makerdown": 2}})
 		defer h.Close()
 		h.run(h.stdActions())
 		cut := len(h.Ops)
